@@ -260,7 +260,14 @@ _set_setstate(Bucket *self, PyObject *args)
         k=PyTuple_GET_ITEM(items, i);
         COPY_KEY_FROM_ARG(self->keys[i], k, copied);
         UNLESS (copied)
+        {
+            /* release the i keys already taken (self->len is still 0) */
+            while (--i >= 0)
+            {
+                DECREF_KEY(self->keys[i]);
+            }
             return -1;
+        }
         INCREF_KEY(self->keys[i]);
     }
 
